@@ -129,8 +129,23 @@ def good_delaunay(draw, height=True):
     return s
 
 
+@st.composite
+def regular_closed(draw):
+    """exactly regular / symmetric closed polyhedra and tori (no jitter): symmetric spectra, forced zeros, parallel fields"""
+    name = draw(st.sampled_from(["tet", "octa", "icosa", "bipyramid", "antiprism", "torus"]))
+    V, F = G.compact(*G.op_triangulate_all(*G.build_base(name, draw(st.integers(0, 4)), draw(st.integers(0, 4))), draw(st.integers(0, 1))))
+    tags = ["base=" + name, "regular"]
+    if not _angles_ok(V, F) or SurfRef(len(V), F).validate() is not None:
+        V, F = G.compact(*G.op_triangulate_all(*G.build_base("octa", 0, 0), 0))
+        tags = ["base=octa", "regular"]
+    if draw(st.booleans()):
+        V, F, _ = G.relabel(V, F, draw(st.integers(0, 10000)))
+    V = [[float(x) for x in v] for v in V]
+    return {"V": V, "F": [list(map(int, f)) for f in F], "tags": tags + G.tags_of(V, F)}
+
+
 def any_surface():
-    return st.one_of(G.well_shaped_trisurf(max_faces=60, bordered=False), G.well_shaped_trisurf(max_faces=60, bordered=False, closed_bases=("icosa", "torus", "antiprism")),
+    return st.one_of(regular_closed(), G.well_shaped_trisurf(max_faces=60, bordered=False), G.well_shaped_trisurf(max_faces=60, bordered=False, closed_bases=("icosa", "torus", "antiprism")),
                      G.well_shaped_trisurf(max_faces=60, bordered=True), panels(), panels(min_size=3), panels(roof=True, min_size=3),
                      panels(roof=True, min_size=2), panels(roof=False, min_size=3), good_delaunay())
 
@@ -273,6 +288,21 @@ def replicate_solve(L, A, free, fixed, var0, n_smooth, alpha):
     return xs, max(conds)
 
 
+def forced_zeros(L, A):
+    """elements where every vector of the lowest eigenspace of (L, A) vanishes (A None = identity)"""
+    import scipy.linalg as sl
+    n = L.shape[0]
+    H = (L + L.conj().T) / 2
+    try:
+        w, U = sl.eigh(H, None if A is None else (A + A.conj().T) / 2)
+    except Exception:
+        return np.zeros(n, dtype=bool)
+    width = max(float(w[-1] - w[0]), 1e-300)
+    sel = (w - w[0]) <= 1e-6 * width
+    amp = np.sqrt(np.sum(np.abs(U[:, sel]) ** 2, axis=1))
+    return amp <= 1e-7 * float(np.max(amp))
+
+
 def partition(case, mesh, ff, ref, medges):
     """fixed / free element lists according to the library's feature set"""
     fe = sorted(int(e) for e in ff.feat.feature_edges)
@@ -351,7 +381,7 @@ def fn_field(case, ctx):
 
     # operators as the library defines them (connection may have been corrected by initialize())
     L = A = None
-    if fixed and free:
+    if free:
         ok, ops = ctx.call("operators", library_operators, case, mesh, ff)
         if not ok: return
         L, A = ops
@@ -363,7 +393,7 @@ def fn_field(case, ctx):
 
     # harness-side replica of the documented scheme (asserted only for n_smooth = 0; otherwise used for exemptions)
     xs = cond = None
-    if L is not None:
+    if L is not None and fixed:
         xs, cond = replicate_solve(L, A, free, fixed, var0, int(case["n_smooth"]), float(case["alpha"]))
         if not np.isfinite(cond) or cond > 1e12:
             # negative cotangent weights of a non-Delaunay mesh (or an attach weight hitting an eigenvalue) can make the
@@ -388,11 +418,17 @@ def fn_field(case, ctx):
     if np.any(vanishing):
         # legitimate only where the un-normalised solution itself vanishes (exact symmetry): confirm with the replica
         legit = np.zeros(n_el, dtype=bool)
-        if xs is not None and cond is not None and cond <= COND_MAX and len(xs) == 1 + int(case["n_smooth"]):
+        undecided = False
+        if not fixed:
+            # eigen path (closed, no constraint): legitimate where every vector of the smoothest eigenspace of the documented
+            # problem (L x = lambda A x on vertices, L x = lambda x on faces) vanishes, i.e. a zero forced by symmetry
+            legit = forced_zeros(L, A if elements == "vertices" else None)
+        elif xs is not None and cond is not None and cond <= COND_MAX and len(xs) == 1 + int(case["n_smooth"]):
             legit[np.array(free, dtype=int)[np.abs(xs[-1]) <= 1e-9]] = True
-        legit[np.array(fixed, dtype=int)[np.abs(var0[fixed]) <= 1e-10] if fixed else []] = False
+        else:
+            undecided = True
         bad_van = np.where(vanishing & ~legit)[0]
-        if xs is None or cond is None or cond > COND_MAX:
+        if undecided:
             ctx.discard("vanishing element, replica ill-conditioned")
             bad_van = np.array([], dtype=int)
         ctx.label("vanishing-element")
